@@ -498,10 +498,9 @@ def walk(sd, cfg, visit, node=None, path="", visit_cfg=None):
             visit(p, f, _MISSING)
             continue
         if is_cfg_node(f):
+            visit(p, f, value)
             if isinstance(value, Config):
                 walk(sd, value, visit, sub_schema_node(sd, f), p, visit_cfg)
-            else:
-                visit(p, f, value)
             continue
         visit(p, f, value)
         if f["kind"] == "list" and f.get("item") and is_cfg_node(f["item"]) and isinstance(value, list):
